@@ -309,7 +309,21 @@ fn run_case_inner(case: &Value, engine: &str, own_hook: bool) -> Value {
         })));
     }
     // "warm" cases: an earlier execution with a different packet must not influence this one (C09, C10)
-    if case["warm"].as_u64() == Some(1) && kind != "nodata" {
+    let warm = case["warm"].as_u64().unwrap_or(0);
+    if warm == 2 && kind != "nodata" && pkt.len >= 2 {
+        // the same start address with another length (a reused receive buffer)
+        // (one byte shorter; one byte longer for Cranelift code, where an access refused in the
+        // warm-up run would trap and end the process - the extra byte is never touched)
+        let short: *mut [u8] = if engine == "cl" {
+            std::ptr::slice_from_raw_parts_mut(pkt.base as *mut u8, pkt.len + 1)
+        } else {
+            &mut pkt.slice()[..pkt.len - 1]
+        };
+        let other_mb: *mut [u8] = Box::leak(vec![0u8; mbuf.len].into_boxed_slice());
+        let _ = std::panic::catch_unwind(std::panic::AssertUnwindSafe(|| unsafe { vm.exec(engine, &mut *short, &mut *other_mb) }));
+        // (the warm-up run may have stored into the packet: put the case's bytes back)
+        pkt.slice().copy_from_slice(&bytes(&case["pkt"]["bytes"]));
+    } else if warm >= 1 && kind != "nodata" {
         // (a larger packet, so that whatever is in bounds for the real one is in bounds here)
         let other: *mut [u8] = Box::leak(vec![0x5au8; pkt.len + 13].into_boxed_slice());
         let other_mb: *mut [u8] = Box::leak(vec![0u8; mbuf.len].into_boxed_slice());
